@@ -151,9 +151,21 @@ func runC09(c *Ctx) {
 				n = 4090 + rr.Intn(3000) // longer than the client's 4096-byte write buffer
 			}
 			b := make([]byte, n)
+			// printable ASCII, or - in a quarter of the lines - any byte but CR and LF (NUL, latin-1, broken UTF-8:
+			// "byte for byte" does not depend on the bytes being text)
+			any := rr.Intn(4) == 0
 			for i := range b {
 				x := byte(32 + rr.Intn(95))
+				if any {
+					x = byte(rr.Intn(256))
+					if x == '\r' || x == '\n' {
+						x = 0
+					}
+				}
 				b[i] = x
+			}
+			if any && n > 0 && (b[0] == ' ' || b[0] == ':') {
+				b[0] = 'b'
 			}
 			return string(b)
 		}
